@@ -96,6 +96,16 @@ example : Expr.lambdaFree (.call (.call (.call (.sym "mix") [.lit (.int 1)] fals
       = .ok (.int 321) := ⟨rfl, rfl⟩
 
 
+/-- `vm_lambda_partial` as planned in DESIGN: programs whose lambdas never use a parameter of an
+enclosing lambda (no closure in the proper sense; lambdas may still be nested, shadow, be passed,
+returned and partially applied).  **Not proved** (it needs the layout of the targets queue and an
+invariant on the global registers across nested `execute` calls); the correspondence run enforces it
+empirically: a failing program outside `Expr.hasOpenLambda` is reported as a violation, never as the
+known finding. -/
+def vm_lambda_partial_statement : Prop :=
+  ∀ (fuel : Nat) (e : Expr), e.hasOpenLambda = false →
+    (VM.run fuel e).map Val.obs = (interp fuel e).map Val.obs
+
 /-! ### the property fails for closures (finding `closure-registers`) -/
 
 private def i (n : Int) : Expr := .lit (.int n)
